@@ -417,6 +417,50 @@ fn xdev_slice(ctx: &mut Ctx) {
             );
         }
     }
+    // several starting points on different file systems in one run: what -xdev compares with is the
+    // file system of the starting point the entry was found under
+    mk("r/z/p", true);
+    mk("r/z/p/w", false);
+    mk("r/m/p", true);
+    mk("r/m/p/w", false);
+    let per_root = |root: &str, pruned: bool, xdev: bool| -> Vec<&'static str> {
+        let v: Vec<&'static str> = match root {
+            "r/m" => vec!["r/m", "r/m/d", "r/m/d/y", "r/m/p", "r/m/p/w", "r/m/x"],
+            "r/z" => vec!["r/z", "r/z/p", "r/z/p/w", "r/z/q"],
+            "r/a" => vec!["r/a", "r/a/f"],
+            _ => vec!["r", "r/a", "r/a/f", "r/k", "r/m", "r/m/d", "r/m/d/y", "r/m/p", "r/m/p/w", "r/m/x", "r/z", "r/z/p", "r/z/p/w", "r/z/q"],
+        };
+        v.into_iter().filter(|p| !(pruned && (p.ends_with("/p") || p.ends_with("/p/w")))).filter(|p| !(xdev && root == "r" && p.starts_with("r/m/"))).collect()
+    };
+    for roots in [vec!["r/m", "r/z"], vec!["r/z", "r/m"], vec!["r/z", "r/m", "r/a", "r/m"], vec!["r", "r/m"], vec!["r/m", "r"], vec!["r/a", "r", "r/m", "r/z"]] {
+        for opt in ["-xdev", "-mount", ""] {
+            for pruned in [true, false] {
+                let mut args: Vec<&str> = roots.clone();
+                args.push("-sorted");
+                if !opt.is_empty() {
+                    args.push(opt);
+                }
+                if pruned {
+                    args.extend(["(", "-name", "p", "-prune", ")", "-o", "-print"]);
+                } else {
+                    args.push("-print");
+                }
+                let want: Vec<&str> = roots.iter().flat_map(|r| per_root(r, pruned, !opt.is_empty())).collect();
+                let got = run_find(&args);
+                ctx.rep.evaluations += 1;
+                ctx.rep.nontrivial += 1;
+                ctx.rep.count("xdev_cases", 1);
+                let lines: Vec<String> = String::from_utf8_lossy(&got.out).lines().map(String::from).collect();
+                if lines != want || got.code != Ok(0) {
+                    ctx.rep.violation(
+                        "C03 -xdev/-mount with starting points on different file systems: visit list differs from the reference",
+                        format!("tree r/{{a/f, m (a mounted tmpfs holding x, d/y, p/w), z/{{q, p/w}}}}; find {:?}\nexpected {:?}\nactual   {:?} status {:?} stderr {:?}", args, want, lines, got.code, String::from_utf8_lossy(&got.err)),
+                        json!({"prop":"C03","xdev":true}),
+                    );
+                }
+            }
+        }
+    }
 }
 
 /// One hand-built tree beyond the exhaustive bound: sibling names of 15, 16, 17, 32 and 33 bytes
